@@ -15,6 +15,7 @@ var (
 	flagSecs  = flag.Int("secs", 10, "per-query solver limit in seconds")
 	flagV     = flag.Bool("v", false, "verbose")
 	flagKeep  = flag.String("keep", "", "keep SMT files in this directory")
+	flagEvDir = flag.String("evdir", "", "evidence directory (default <verif>/evidence)")
 )
 
 func main() {
